@@ -36,6 +36,9 @@ type StakeCtrler struct {
 	rwdLedgUpInterval int64
 	lastRwdHash       []byte
 	stakeLimiter      *StakeLimiter
+	// checkStakeLimiter is the scratch limiter of the mempool checks (CheckTx).
+	// The running totals of `stakeLimiter` belong to block execution only.
+	checkStakeLimiter *StakeLimiter
 	govParams         ctrlertypes.IGovHandler
 
 	logger tmlog.Logger
@@ -76,6 +79,7 @@ func NewStakeCtrler(config *cfg.Config, govHandler ctrlertypes.IGovHandler, logg
 		rwdLedgUpInterval: int64(10),
 		lastRwdHash:       rwdHashDB.LastRewardHash(),
 		stakeLimiter:      NewStakeLimiter(nil, govHandler.MaxValidatorCnt(), govHandler.MaxIndividualStakeRatio(), govHandler.MaxUpdatableStakeRatio()),
+		checkStakeLimiter: NewStakeLimiter(nil, govHandler.MaxValidatorCnt(), govHandler.MaxIndividualStakeRatio(), govHandler.MaxUpdatableStakeRatio()),
 		govParams:         govHandler,
 		logger:            logger.With("module", "rigo_StakeCtrler"),
 	}
@@ -223,6 +227,8 @@ func (ctrler *StakeCtrler) BeginBlock(blockCtx *ctrlertypes.BlockContext) ([]abc
 	sort.Sort(PowerOrderDelegatees(ctrler.allDelegatees)) // sort by power
 
 	ctrler.stakeLimiter.Reset(PowerOrderDelegatees(ctrler.allDelegatees),
+		ctrler.govParams.MaxValidatorCnt(), ctrler.govParams.MaxIndividualStakeRatio(), ctrler.govParams.MaxUpdatableStakeRatio())
+	ctrler.checkStakeLimiter.Reset(PowerOrderDelegatees(ctrler.allDelegatees),
 		ctrler.govParams.MaxValidatorCnt(), ctrler.govParams.MaxIndividualStakeRatio(), ctrler.govParams.MaxUpdatableStakeRatio())
 
 	//
@@ -447,8 +453,10 @@ func (ctrler *StakeCtrler) doRewardTo(delegatee *Delegatee, height int64) (*uint
 
 func (ctrler *StakeCtrler) ValidateTrx(ctx *ctrlertypes.TrxContext) xerrors.XError {
 	getDelegatee := ctrler.delegateeLedger.Get
+	stakeLimiter := ctrler.checkStakeLimiter
 	if ctx.Exec {
 		getDelegatee = ctrler.delegateeLedger.GetFinality
+		stakeLimiter = ctrler.stakeLimiter
 	}
 
 	switch ctx.Tx.GetType() {
@@ -526,7 +534,7 @@ func (ctrler *StakeCtrler) ValidateTrx(ctx *ctrlertypes.TrxContext) xerrors.XErr
 			}
 		}
 		if len(ctrler.lastValidators) >= 3 {
-			if xerr := ctrler.stakeLimiter.CheckLimit(_delg, txPower); xerr != nil {
+			if xerr := stakeLimiter.CheckLimit(_delg, txPower); xerr != nil {
 				return xerrors.ErrUpdatableStakeRatio.Wrap(xerr)
 			}
 		}
@@ -558,7 +566,7 @@ func (ctrler *StakeCtrler) ValidateTrx(ctx *ctrlertypes.TrxContext) xerrors.XErr
 		}
 
 		if len(ctrler.lastValidators) >= 3 {
-			if xerr := ctrler.stakeLimiter.CheckLimit(delegatee, -1*s0.Power); xerr != nil {
+			if xerr := stakeLimiter.CheckLimit(delegatee, -1*s0.Power); xerr != nil {
 				return xerrors.ErrUpdatableStakeRatio.Wrap(xerr)
 			}
 		}
